@@ -150,7 +150,7 @@ func (w *c04World) checkPersistent(t *rapid.T) {
 
 func (w *c04World) step(t *rapid.T) {
 	// weights: writes dominate so that the cache and the overlay are populated when iterators run
-	acts := []string{"put", "put", "put", "put", "delete", "delete", "get", "iter", "iter", "iter",
+	acts := []string{"put", "put", "put", "put", "delete", "delete", "get", "iter", "iter", "iter", "iter-held",
 		"commit", "commit", "reset", "flush", "newcache", "ovget", "oviter"}
 	act := rapid.SampledFrom(acts).Draw(t, "act")
 	ev := w.ev
@@ -201,6 +201,53 @@ func (w *c04World) step(t *rapid.T) {
 		p := pickKey(t, w.known(), c04MaxKey, "prefix")
 		w.note("I%x", p)
 		w.checkCacheIter(t, p, "iter")
+	case "iter-held":
+		// an iterator is an object with a life time: reads through the same cache (and other
+		// iterators) between its creation, its first positioning and its advance must not disturb it
+		// (rewinding a drained iterator with a second First() is not exercised: no caller does it and
+		// JoinIter keeps its end-of-side flags, so its meaning is not defined by the code)
+		p := pickKey(t, w.known(), c04MaxKey, "prefix")
+		it := w.cache.NewIterator([]byte(p))
+		w.note("IH%x", p)
+		reads := func(label string) {
+			for n := rapid.IntRange(0, 2).Draw(t, label); n > 0; n-- {
+				k := pickKey(t, w.known(), c04MaxKey, "hk")
+				if rapid.IntRange(0, 3).Draw(t, "other-iter") == 0 {
+					o := w.cache.NewIterator([]byte(k))
+					o.First()
+					o.Release()
+					w.note("i%x", k)
+				} else {
+					got, err := w.cache.Get([]byte(k))
+					want, _ := lookup(k, w.ca, w.ov, w.persist)
+					if err != nil || !bytes.Equal(got, want) {
+						t.Fatalf("CacheDB.Get(%x) = %x, %v, most recent write is %x; %s", k, got, err, want, w.state())
+					}
+					w.note("g%x", k)
+				}
+				ev.Class("iter-held:read-while-iterator-open")
+			}
+		}
+		wantK, wantV := liveWithPrefix(p, w.ca, w.ov, w.persist)
+		reads("reads-before-first")
+		var gotK []string
+		var gotV [][]byte
+		for ok := it.First(); ok; ok = it.Next() {
+			gotK = append(gotK, string(it.Key()))
+			gotV = append(gotV, append([]byte{}, it.Value()...))
+			if len(gotK) == 1 {
+				reads("reads-after-first")
+			}
+		}
+		if err := it.Error(); err != nil {
+			t.Fatalf("CacheDB.NewIterator(%x): iterator error %v; %s", p, err, w.state())
+		}
+		if !sameSeq(gotK, gotV, wantK, wantV) {
+			t.Fatalf("CacheDB.NewIterator(%x), with reads between creation, First and Next, yields %s, want exactly the live keys in ascending order with newest values %s; %s",
+				p, fmtSeq(gotK, gotV), fmtSeq(wantK, wantV), w.state())
+		}
+		it.Release()
+		w.classify("iter-held", shapeOf(p, w.ca, w.ov, w.persist))
 	case "oviter":
 		p := pickKey(t, w.known(), c04MaxKey, "prefix")
 		w.note("OI%x", p)
@@ -283,7 +330,7 @@ func (w *c04World) step(t *rapid.T) {
 }
 
 func TestC04_History(t *testing.T) {
-	ev := harn.For("C04").Rule("stateful histories (avg 40 steps) of put/delete/get/iterate/commit/reset/new-cache on a CacheDB, get/iterate on the OverlayDB and overlay commit to an in-memory goleveldb pre-populated with 0-8 keys; keys of length 0-4 over {a,b,00,ff}, ~70% drawn from (prefixes/extensions of) keys already present in some layer; after EVERY step all known keys are read through cache and overlay and the whole storage prefix is iterated through the cache. Non-trivial = the history contains an iteration in which the memory side and the backend side both contribute and at least one key is shadowed or tombstoned; distinct by history text")
+	ev := harn.For("C04").Rule("stateful histories (avg 40 steps) of put/delete/get/iterate/commit/reset/new-cache on a CacheDB (iterators also held open across reads and other iterators, positioned late), get/iterate on the OverlayDB and overlay commit to an in-memory goleveldb pre-populated with 0-8 keys; keys of length 0-4 over {a,b,00,ff}, ~70% drawn from (prefixes/extensions of) keys already present in some layer; after EVERY step all known keys are read through cache and overlay and the whole storage prefix is iterated through the cache. Non-trivial = the history contains an iteration in which the memory side and the backend side both contribute and at least one key is shadowed or tombstoned; distinct by history text")
 	ev.Floor("iter:nontrivial", "iter", 0.10)
 	ev.Floor("iter:both-sides", "iter", 0.15)
 	ev.Floor("iter:first-is-tombstone", "iter", 0.01)
